@@ -62,7 +62,7 @@ Lemma p_count_app {A} (l : list A) body rest :
   p_count (e_len l ++ body ++ rest) = Ok (length l, body ++ rest).
 Proof.
   intros Hl Hb. unfold p_count, e_len. rewrite read_le4 by now apply len_ok_lt.
-  replace (N.ltb _ _) with false.
+  rewrite shorter_than_spec. replace (N.ltb _ _) with false.
   - now rewrite Nat2N.id.
   - symmetry. apply N.ltb_ge. rewrite app_length. lia.
 Qed.
@@ -72,7 +72,7 @@ Lemma p_count4_app {A} (l : list A) body rest :
   p_count4 (e_len l ++ body ++ rest) = Ok (length l, body ++ rest).
 Proof.
   intros Hl Hb. unfold p_count4, e_len. rewrite read_le4 by now apply len_ok_lt.
-  replace (N.ltb _ _) with false.
+  rewrite shorter_than_spec. replace (N.ltb _ _) with false.
   - now rewrite Nat2N.id.
   - symmetry. apply N.ltb_ge. rewrite app_length. lia.
 Qed.
@@ -714,7 +714,7 @@ Proof.
     + apply andb_true_iff in Hb. destruct Hb as [Hc Hn]. apply Nat.eqb_eq in Hn. subst n.
       assert (Hk : bs_known_type (bs_col_type c) = true) by now destruct c.
       rewrite Hk. rewrite <- (app_nil_r (bs_enc_col rd u c)).
-      rewrite (pb _ _ _ _ _ (bs_col_roundtrip rd u c [] Hc)). reflexivity.
+      rewrite (pb _ _ _ _ _ (bs_col_roundtrip rd u c [] Hc)). now rewrite Nat.eqb_refl.
     + reflexivity.
     + apply andb3 in Hb. destruct Hb as [_ [Hk _]]. apply negb_true_iff in Hk. now rewrite Hk.
   - (* PRNT *)
@@ -789,7 +789,7 @@ Definition frame_ok (compress : bool) (c : bytes * bytes) : bool :=
 
 Lemma read_exact_N_app a rest : read_exact_N (N.of_nat (length a)) (a ++ rest) = Ok (a, rest).
 Proof.
-  unfold read_exact_N. rewrite app_length.
+  unfold read_exact_N. rewrite shorter_than_spec, app_length.
   replace (N.ltb _ _) with false by (symmetry; apply N.ltb_ge; lia).
   rewrite Nat2N.id. apply read_exact_app.
 Qed.
@@ -1210,7 +1210,7 @@ Definition raw_lengths_ok (c : bs_raw) : Prop :=
 
 Lemma read_exact_N_len n b h t : read_exact_N n b = Ok (h, t) -> N.of_nat (length h) = n.
 Proof.
-  unfold read_exact_N. destruct (N.ltb _ _); [discriminate|]. intros H. apply read_exact_ok in H.
+  unfold read_exact_N. destruct (shorter_than _ _); [discriminate|]. intros H. apply read_exact_ok in H.
   destruct H as [H _]. rewrite H. apply N2Nat.id.
 Qed.
 
@@ -1316,8 +1316,115 @@ Proof.
   exact (end_chunk_magic rd seen' _ _ it Hn Hit).
 Qed.
 
+(* ---- every PROP carries exactly one value per instance of its class *)
+Lemma run_ok {A} (p : parser A) data (it : A) :
+  match p data with Ok (x, _) => Ok x | Panic => Panic | Err c => Err c | OutOfFuel => OutOfFuel end = Ok it ->
+  exists b', p data = Ok (it, b').
+Proof. destruct (p data) as [[x b']| | |]; intros H; try discriminate. injection H as <-. eauto. Qed.
+
+Lemma p_end_inv {A} (a : A) b r b' : p_end a b = Ok (r, b') -> r = a.
+Proof. destruct b; cbn; intros H; [now injection H as <-|discriminate]. Qed.
+
+Lemma parse_item_prop rd seen name data p c :
+  bs_parse_item rd seen name data = Ok (IProp p) -> bp_body p = BValues c ->
+  exists n, seen_count seen (bp_class p) = Some n /\ bs_col_len c = n.
+Proof.
+  unfold bs_parse_item. intros H Hb.
+  destruct (bytes_eqb name NAME_META).
+  { apply run_ok in H. destruct H as [b' H]. unfold p_meta in H.
+    apply pbind_ok in H. destruct H as [? [? [_ H]]]. apply pbind_ok in H. destruct H as [? [? [_ H]]].
+    apply p_end_inv in H. discriminate. }
+  destruct (bytes_eqb name NAME_SSTR).
+  { apply run_ok in H. destruct H as [b' H]. unfold p_sstr in H.
+    apply pbind_ok in H. destruct H as [ver [? [_ H]]]. destruct (negb (N.eqb ver 0)); [discriminate|].
+    apply pbind_ok in H. destruct H as [? [? [_ H]]]. apply pbind_ok in H. destruct H as [? [? [_ H]]].
+    apply p_end_inv in H. discriminate. }
+  destruct (bytes_eqb name NAME_INST).
+  { apply run_ok in H. destruct H as [b' H]. unfold p_inst in H.
+    apply pbind_ok in H. destruct H as [? [? [_ H]]]. apply pbind_ok in H. destruct H as [? [? [_ H]]].
+    apply pbind_ok in H. destruct H as [fmt [? [_ H]]]. destruct (negb _); [discriminate|].
+    apply pbind_ok in H. destruct H as [? [? [_ H]]]. apply pbind_ok in H. destruct H as [? [? [_ H]]].
+    apply pbind_ok in H. destruct H as [? [? [_ H]]]. apply p_end_inv in H. discriminate. }
+  destruct (bytes_eqb name NAME_PROP).
+  { apply run_ok in H. destruct H as [b' H]. unfold p_prop in H.
+    apply pbind_ok in H. destruct H as [id [b1 [_ H]]]. apply pbind_ok in H. destruct H as [nm [b2 [_ H]]].
+    destruct (seen_count seen id) as [n|] eqn:En; [|discriminate].
+    destruct b2 as [|ty vals].
+    - injection H as Hp _. subst p. cbn in Hb. discriminate.
+    - destruct (bs_known_type ty).
+      + apply pbind_ok in H. destruct H as [c' [b3 [_ H]]].
+        destruct (Nat.eqb (bs_col_len c') n) eqn:El; [|discriminate].
+        apply p_end_inv in H. injection H as Hp. subst p. cbn [bp_body bp_class] in *. injection Hb as Hc. subst c'.
+        exists n. split; [exact En|now apply Nat.eqb_eq].
+      + injection H as Hp _. subst p. cbn in Hb. discriminate. }
+  destruct (bytes_eqb name NAME_PRNT).
+  { apply run_ok in H. destruct H as [b' H]. unfold p_prnt in H.
+    apply pbind_ok in H. destruct H as [ver [? [_ H]]]. destruct (negb (N.eqb ver 0)); [discriminate|].
+    apply pbind_ok in H. destruct H as [? [? [_ H]]]. apply pbind_ok in H. destruct H as [? [? [_ H]]].
+    apply pbind_ok in H. destruct H as [? [? [_ H]]]. apply p_end_inv in H. discriminate. }
+  destruct (bytes_eqb name NAME_END).
+  { apply run_ok in H. destruct H as [b' H]. unfold p_endchunk in H. destruct (bytes_eqb data END_MAGIC); [|discriminate].
+    injection H as H _. discriminate. }
+  discriminate.
+Qed.
+
+Lemma parse_item_inst_seen rd seen name data it :
+  bs_parse_item rd seen name data = Ok it -> seen_add seen it = match it with IInst c => (cls_id c, length (cls_refs c)) :: seen | _ => seen end.
+Proof. intros _. reflexivity. Qed.
+
+Lemma nodup_app_l {A} (a b : list A) : NoDup (a ++ b) -> NoDup a.
+Proof.
+  induction a as [|x a IH]; [constructor|]. cbn [app]. intros H. inversion H as [|? ? Hni Hnd]; subst.
+  constructor; [|now apply IH]. intros Hin. apply Hni. apply in_or_app. now left.
+Qed.
+
+Lemma prop_lengths_gen rd chunks : forall seen pre items,
+  seen = rev (seen_of pre) ->
+  bs_parse_items rd seen chunks = Ok items ->
+  NoDup (List.map cls_id (pre ++ bs_insts items)) ->
+  forallb (fun p => match bp_body p with
+                    | BValues c => match class_count (pre ++ bs_insts items) (bp_class p) with
+                                   | Some n => Nat.eqb (bs_col_len c) n | None => false end
+                    | _ => true end) (bs_props items) = true.
+Proof.
+  induction chunks as [|[name data] r IH]; intros seen pre items Hs H Hnd; cbn [bs_parse_items] in H.
+  - injection H as <-. reflexivity.
+  - destruct (bs_parse_item rd seen name data) as [it| | |] eqn:Ei; cbn [rbind] in H; try discriminate.
+    destruct (bs_parse_items rd (seen_add seen it) r) as [rest| | |] eqn:Er; cbn [rbind] in H; try discriminate.
+    injection H as <-.
+    destruct it as [l|l|c|p|rows| |n d].
+    1,2,5,6,7: (cbn [bs_insts bs_props flat_map app seen_add] in *; exact (IH seen pre rest Hs Er Hnd)).
+    + (* INST *)
+      cbn [bs_insts bs_props flat_map app seen_add] in *.
+      assert (E : pre ++ c :: flat_map (fun it => match it with IInst c0 => [c0] | _ => [] end) rest
+                  = (pre ++ [c]) ++ bs_insts rest) by (unfold bs_insts; now rewrite <- app_assoc).
+      rewrite E in *. apply (IH ((cls_id c, length (cls_refs c)) :: seen) (pre ++ [c]) rest); [|exact Er|exact Hnd].
+      rewrite Hs. unfold seen_of. rewrite map_app, rev_app_distr. reflexivity.
+    + (* PROP *)
+      cbn [bs_insts bs_props flat_map app seen_add forallb] in *.
+      apply andb_true_iff. split; [|exact (IH seen pre rest Hs Er Hnd)].
+      destruct (bp_body p) as [col| |] eqn:Eb; try reflexivity.
+      destruct (parse_item_prop rd seen name data p col Ei Eb) as [n [Hn Hl]].
+      unfold class_count.
+      assert (Hpre : NoDup (List.map fst (seen_of pre))).
+      { unfold seen_of. rewrite map_map. cbn [fst]. rewrite map_app in Hnd. now apply nodup_app_l in Hnd. }
+      rewrite Hs, seen_count_rev in Hn by exact Hpre.
+      change (List.map (fun c0 => (cls_id c0, length (cls_refs c0))) (pre ++ bs_insts rest)) with (seen_of (pre ++ bs_insts rest)).
+      unfold seen_of. rewrite map_app. fold (seen_of pre). rewrite (seen_count_app_in _ _ _ _ Hn). now apply Nat.eqb_eq.
+Qed.
+
+Theorem decode_chunks_prop_lengths rd hdr chunks f : bspec_decode_chunks rd hdr chunks = Ok f ->
+  exists items, bs_parse_items rd [] chunks = Ok items /\ cl_prop_lengths items = true.
+Proof.
+  intros H. destruct (decode_chunks_clauses rd hdr chunks f H) as [items [Hp [_ [_ [Hu _]]]]].
+  exists items. split; [exact Hp|]. unfold cl_prop_lengths.
+  apply (prop_lengths_gen rd chunks [] [] items eq_refl Hp).
+  cbn [app]. unfold cl_unique_class_ids in Hu. now apply nodup_N_NoDup.
+Qed.
+
 Print Assumptions bs_col_roundtrip.
 Print Assumptions bs_items_roundtrip.
 Print Assumptions bspec_roundtrip.
 Print Assumptions decode_chunks_clauses.
 Print Assumptions decode_gen_framing.
+Print Assumptions decode_chunks_prop_lengths.
